@@ -382,6 +382,12 @@ def body(ctx):
                 ctx.inconclusive.append(f"{phase.__name__}[{tag}]: {type(e).__name__}: {e}")
     for (desc, maxv, prefix, ops, what) in reports:
         ctx.report(None, what, desc, rust_test(maxv, prefix, ops, desc.get('n_tail', 1)), inject_into='src/io_loop/mod.rs', role_from_output=True)
+    # an id that was handed out is usable: the I/O thread dispatches that channel's wake-ups for every id up to 65535
+    try:
+        import c20
+        c20.token_range(ctx, ctx.load(True))
+    except (Unsupported, Inconclusive) as e:
+        ctx.inconclusive.append(f"token range: {type(e).__name__}: {e}")
 
 
 def get_fns(prog):
